@@ -512,17 +512,19 @@ class CoseContext(AbstractContext):
                 },
             )
 
+            # fixed width of the curve, leading zero octets included
+            coor_size = (keyobj.curve.key_size + 7) // 8
             if pub_nums:
                 x_coor = pub_nums.x
                 y_coor = pub_nums.y
                 kwargs.update(dict(
-                    x=x_coor.to_bytes((x_coor.bit_length() + 7) // 8, byteorder="big"),
-                    y=y_coor.to_bytes((y_coor.bit_length() + 7) // 8, byteorder="big")
+                    x=x_coor.to_bytes(coor_size, byteorder="big"),
+                    y=y_coor.to_bytes(coor_size, byteorder="big")
                 ))
             if priv_nums:
                 d_value = priv_nums.private_value
                 kwargs.update(dict(
-                    d=d_value.to_bytes((d_value.bit_length() + 7) // 8, byteorder="big"),
+                    d=d_value.to_bytes(coor_size, byteorder="big"),
                 ))
 
             cose_key = EC2Key(**kwargs)
